@@ -301,6 +301,8 @@ def r4_conversion_location(ctx, rep):
                "assigned on every path" if ok else
                f"{attr} keeps the value of the previous conversion on some path: text converted without a context/path (project "
                f"summary, static pages) is linked relative to whatever was converted before", py.nloc(cv))
+    from . import c17
+    c17.r4_conversion_path(ctx, rep)
     rl = py.func("RelativeLinksTreeProcessor.run")
     ev = astq.trace(rl)
     first_ret = next((e for e in ev if e.kind == "return"), None)
@@ -426,6 +428,7 @@ def r8_found_items_have_urls(ctx, rep):
     its own page (get_dir), an anchor on its owner's page (the isinstance tuple in get_url), or a get_url override."""
     py = ctx.py
     from . import c05
+    c09.anchored_url_from_parent(ctx, rep)
     st = dict_const(py, "sourceform", "SUBLINK_TYPES")
     gd = py.func("FortranBase.get_dir")
     gu = py.func("FortranBase.get_url")
